@@ -61,7 +61,7 @@ def decide_outcomes(rows):
 
 def check(prop, tier, replay=None):
     run = Run("C11", tier)
-    run.cov["rule"] = ("(a) generated infeasible projects: dependency cycles, self-dependencies, container depending on its child, pinned starts far "
+    run.cov["rule"] = ("(a) generated infeasible projects and small projects with 4-5 scenarios over inherited limits: dependency cycles, self-dependencies, container depending on its child, pinned starts far "
                        "beyond the end, deadlines before the start, resources on leave for the whole horizon, zero / huge efforts, no allocation, "
                        "group allocations, ALAP; (b) corrupted variants of generated texts and of the repository fixtures: token deletion / duplication / "
                        "swap, truncation, brace damage, absurd numbers and dates, keyword substitution, undefined and recursive macros; "
@@ -72,6 +72,9 @@ def check(prop, tier, replay=None):
     n_cor = 6 if tier == "quick" else 40
     jobs = []
     for pid, p in gen.infeasible(rng, n_inf):
+        jobs.append({"id": "C11-" + pid, "text": p.render(), "scenarios": [0]})
+    # cost must stay proportional to the size of the project: many scenarios over inherited limits
+    for pid, p in gen.many_scenarios(rng, 6 if tier == "quick" else 60):
         jobs.append({"id": "C11-" + pid, "text": p.render(), "scenarios": [0]})
     seeds = []
     for name in ("dags", "limits_profile", "calendars", "teams_alts"):
@@ -87,7 +90,7 @@ def check(prop, tier, replay=None):
     skipped_eff = 0
     for sid, text in seeds:
         for j, (kind, bad) in enumerate(gen.corruptions(text, rng, n_cor)):
-            m = re.search(r'project\s+\S+\s+"[^"]*"\s+\S+\s+\+(\d+)([dwmy])', bad)
+            m = re.search(r'project\s+(?:[A-Za-z_]\S*\s+)?"[^"]*"\s+(?:"[^"]*"\s+)?\S+\s+\+(\d+)\s*([dwmy])', bad)
             if m and int(m.group(1)) * {"d": 1, "w": 7, "m": 31, "y": 366}[m.group(2)] > 3660:
                 skipped += 1        # declared horizon beyond 10 years: cost is proportional to it and exceeds the tooling cap
                 continue
